@@ -409,7 +409,8 @@ def OP_READ_CACHE_SIZE(tape: Tape, stack: Stack, cache: dict) -> None:
     if key not in cache:
         return stack.put(int_to_bytes(0))
 
-    stack.put(int_to_bytes(len(cache[key])))
+    items = cache[key] if type(cache[key]) in (list, tuple) else [cache[key]]
+    stack.put(int_to_bytes(len(items)))
 
 def OP_READ_CACHE_STACK(tape: Tape, stack: Stack, cache: dict) -> None:
     """Pull a value from the stack as a cache key; put those values from
@@ -432,7 +433,8 @@ def OP_READ_CACHE_STACK_SIZE(tape: Tape, stack: Stack, cache: dict) -> None:
     if key not in cache:
         return stack.put(int_to_bytes(0))
 
-    stack.put(int_to_bytes(len(cache[key])))
+    items = cache[key] if type(cache[key]) in (list, tuple) else [cache[key]]
+    stack.put(int_to_bytes(len(items)))
 
 def OP_ADD_INTS(tape: Tape, stack: Stack, cache: dict) -> None:
     """Read the next byte from the tape, interpreting as an unsigned
